@@ -140,6 +140,13 @@ def totality_strategy(tier):
     })
 
 
+def _walk_query(q):
+    yield q
+    for c in q.children():
+        for x in _walk_query(c):
+            yield x
+
+
 def run_totality(case, out):
     ix = fixed_index()
     qs = case["qstring"]
@@ -155,6 +162,13 @@ def run_totality(case, out):
         return
     if not isinstance(q, query.Query):
         out.fail("c16.parse_returned_non_query", {"q": qs, "config": case["config"], "type": type(q).__name__})
+        return
+    # a fuzzy term with a large maximum distance (word~9) is answered, but the automaton it needs grows ~6x per unit
+    # of distance (minutes for ~8 on a 16-letter word): such queries are parsed but not executed here (C19 covers
+    # distances 0..3)
+    if any(isinstance(x, query.FuzzyTerm) and x.maxdist > 3 for x in _walk_query(q)):
+        out.exclude("fuzzy_maxdist_over_3_not_searched")
+        out.nontrivial = True
         return
     with ix.searcher() as s:
         try:
